@@ -165,6 +165,13 @@ impl<'tcx> Cx<'tcx> {
             parts.push(format!("\"def\":{}", esc(&self.path(u.def))));
             parts.push(format!("\"defid\":{}", esc(&self.id(u.def))));
         }
+        // const generic parameter used as a value
+        if let mir::Const::Ty(_, ct) = c.const_ {
+            if let ty::ConstKind::Param(p) = ct.kind() {
+                parts.push(format!("\"cparam\":{}", esc(&p.name.to_string())));
+                parts.push(format!("\"cparam_index\":{}", p.index));
+            }
+        }
         // fn item?
         if let ty::FnDef(did, _) = ty.kind() {
             parts.push(format!("\"fn\":{}", esc(&self.path(*did))));
